@@ -28,6 +28,7 @@ mod c18;
 mod gen_schema_chain;
 mod c16;
 mod c14;
+mod c14_typed;
 mod c15;
 mod c17;
 
@@ -95,6 +96,7 @@ fn main() {
                 "c18" => c18::run(&args, &mut out),
                 "c16" => c16::run(&args, &mut out),
                 "c14" => c14::run(&args, &mut out),
+                "c14typed" => c14_typed::run(&args, &mut out),
                 "c15" => c15::run(&args, &mut out),
                 "c17" => c17::run(&args, &mut out),
                 s => { eprintln!("unknown stream {s}"); std::process::exit(2); }
